@@ -426,4 +426,81 @@ example : (withdraw cfgH stateE 1 1 1 40 0).toBool = true ∧ (withdraw cfgH sta
 example : (closeLend cfgH stateE 1 1 0).toBool = false ∧
     (closeLend cfgH (run cfgH (init cfgH bankH pricesH) [.lend 1 1 1 100 1 1 0]) 1 1 0).toBool = true := by decide
 
+/-! ## Where the interest goes: every repayment is split without loss -/
+
+/-- how a partial repayment `p` on borrow `b` (as it stands after the accrual of the message) is booked: `bs'` is the borrow store afterwards -/
+def RepaySplit (b : Borrow) (p : Int) (bs bs' : List Borrow) : Prop :=
+  ∃ toReserve toLenders cut dust,
+    p = toReserve + toLenders + cut + dust ∧
+    (0 ≤ b.reserveInt → b.reserveInt ≤ b.interest → 0 ≤ dust ∧ dust ≤ 1) ∧
+    bs' = setBorrow bs { b with amountOut := b.amountOut - cut,
+                                interest := b.interest - Dec.ofInt (toReserve + toLenders + dust),
+                                reserveInt := b.reserveInt - Dec.ofInt toReserve }
+
+theorem repaySplit_reserve (b : Borrow) (p : Int) (bs : List Borrow) :
+    RepaySplit b p bs (setBorrow bs { b with reserveInt := b.reserveInt - Dec.ofInt p, interest := b.interest - Dec.ofInt p }) :=
+  ⟨p, 0, 0, 0, by omega, fun _ _ => ⟨by omega, by omega⟩, by simp⟩
+
+theorem repaySplit_interest (b : Borrow) (p : Int) (bs : List Borrow) :
+    RepaySplit b p bs (setBorrow bs { b with reserveInt := b.reserveInt - Dec.ofInt (Dec.truncateInt b.reserveInt),
+                                             interest := b.interest - Dec.ofInt p }) := by
+  refine ⟨Dec.truncateInt b.reserveInt, p - Dec.truncateInt b.reserveInt, 0, 0, by omega, fun _ _ => ⟨by omega, by omega⟩, ?_⟩
+  have : Dec.truncateInt b.reserveInt + (p - Dec.truncateInt b.reserveInt) + 0 = p := by omega
+  simp [this]
+
+theorem repaySplit_principal (b : Borrow) (p : Int) (bs : List Borrow) :
+    RepaySplit b p bs (setBorrow bs { b with reserveInt := b.reserveInt - Dec.ofInt (Dec.truncateInt b.reserveInt),
+                                             amountOut := b.amountOut - (p - Dec.truncateInt b.interest),
+                                             interest := b.interest - Dec.ofInt (Dec.truncateInt b.interest) }) := by
+  refine ⟨Dec.truncateInt b.reserveInt, Dec.truncateInt (b.interest - b.reserveInt), p - Dec.truncateInt b.interest,
+    Dec.truncateInt b.interest - Dec.truncateInt b.reserveInt - Dec.truncateInt (b.interest - b.reserveInt), by omega, ?_, ?_⟩
+  · intro h0 hle
+    obtain ⟨dust, d0, d1, e⟩ := interest_split b.interest b.reserveInt h0 hle
+    omega
+  · have : Dec.truncateInt b.reserveInt + Dec.truncateInt (b.interest - b.reserveInt) +
+        (Dec.truncateInt b.interest - Dec.truncateInt b.reserveInt - Dec.truncateInt (b.interest - b.reserveInt)) = Dec.truncateInt b.interest := by omega
+    simp [this]
+
+/-- **Repayment split** — an accepted partial repayment `p` (not the close shortcut) is split into a reserve share, a lender share
+(minted as cTokens into `totalInterestAccumulated`), a principal cut and at most one token of dust:
+`p = toReserve + toLenders + cut + dust`; the borrow's principal falls by `cut`, its accrued interest by exactly the whole tokens
+`toReserve + toLenders + dust`, its reserve tracker by `toReserve`; with `0 ≤ reserveShare ≤ interest` the dust is 0 or 1 token (it is the
+`⌊a⌋ − ⌊b⌋ − ⌊a−b⌋` of the two truncations and stays in the pool). -/
+theorem repay_split {cfg : Cfg} {s s' : State} {u k d : Nat} {p : Int} {ext : ExtB} (h : repay cfg s u k d p ext = .ok s') :
+    closeBorrow cfg s u k ext = .ok s' ∨
+    ∃ s1 b, iterBorrow s k ext = .ok s1 ∧ getBorrow s1.borrows k = some b ∧ RepaySplit b p s1.borrows s'.borrows := by
+  unfold repay at h
+  invert h
+  · exact Or.inl ‹_›
+  all_goals
+    refine Or.inr ?_
+    have hit := ‹iterBorrow s k ext = .ok _›
+    have hb1 := after_iterBorrow hit (by assumption)
+    first
+    | exact ⟨_, _, hit, hb1, repaySplit_reserve _ _ _⟩
+    | exact ⟨_, _, hit, hb1, repaySplit_interest _ _ _⟩
+    | exact ⟨_, _, hit, hb1, repaySplit_principal _ _ _⟩
+
+/-- **Closing a borrow**: the borrower pays principal + whole tokens of interest; of the interest the whole tokens of the reserve share
+go to the reserve, the whole tokens of the rest are minted as cTokens and booked on `totalInterestAccumulated` (the lenders' share),
+at most one token of dust stays in the pool: `⌊interest⌋ = ⌊reserve⌋ + ⌊interest − reserve⌋ + dust`, `dust ∈ {0, 1}`. -/
+theorem closeBorrow_split {cfg : Cfg} {s s' : State} {u k : Nat} {ext : ExtB} (h : closeBorrow cfg s u k ext = .ok s') :
+    ∃ s1 b pair, iterBorrow s k ext = .ok s1 ∧ getBorrow s1.borrows k = some b ∧ cfg.pair? b.pairId = some pair ∧
+      s'.stats = addBorrowed (if Dec.truncateInt (b.interest - b.reserveInt) > 0
+                              then addTotalInterest s1.stats pair.outPool pair.assetOut (Dec.truncateInt (b.interest - b.reserveInt))
+                              else s1.stats) pair.outPool pair.assetOut b.stable (-b.amountOut) ∧
+      (0 ≤ b.reserveInt → b.reserveInt ≤ b.interest → ∃ dust, 0 ≤ dust ∧ dust ≤ 1 ∧
+        Dec.truncateInt b.interest = Dec.truncateInt b.reserveInt + Dec.truncateInt (b.interest - b.reserveInt) + dust) := by
+  unfold closeBorrow at h
+  invert h
+  all_goals
+    have hb0 := ‹getBorrow s.borrows k = some _›
+    have hit := ‹iterBorrow s k ext = .ok _›
+    have hb1 := after_iterBorrow hit (by assumption)
+    obtain ⟨_, _, _, hpi, _⟩ := iterBorrow_rel hit hb0 hb1
+    have hp := ‹cfg.pair? _ = some _›
+    rw [← hpi] at hp
+    refine ⟨_, _, _, hit, hb1, hp, ?_, fun h0 hle => interest_split _ _ h0 hle⟩
+    simp [*]
+
 end Comdex.C08
